@@ -613,10 +613,56 @@ Proof.
   rewrite hset_other; [reflexivity|]. intros Heq. rewrite <- Heq in Hy. rewrite E in Hy. discriminate.
 Qed.
 
+(* ------------------------------------------------------------------ deepcopy only appends *)
+Lemma copy_ops_m_extends : forall ops h m h2 m2 r', copy_ops_m h m ops = Some (h2, m2, r') -> extends h h2.
+Proof.
+  induction ops as [|[oid vs] ops IH]; intros h m h2 m2 r' H; cbn in H.
+  - injection H as <- _ _. apply extends_refl.
+  - destruct (mget oid m).
+    + destruct (copy_ops_m h m ops) as [[[h3 m3] r3]|] eqn:E; [|discriminate]. injection H as <- _ _. eauto.
+    + destruct (lookup h oid) as [[n e dd| |]|]; try discriminate.
+      destruct (copy_ops_m (h ++ [OOp n e dd]) ((oid, List.length h) :: m) ops) as [[[h3 m3] r3]|] eqn:E; [|discriminate].
+      injection H as <- _ _. eapply extends_trans; [apply extends_app|eauto].
+Qed.
+Lemma copy_node_m_extends h m nid h2 m2 nid' : copy_node_m h m nid = Some (h2, m2, nid') -> extends h h2.
+Proof.
+  unfold copy_node_m. destruct (mget nid m).
+  - intros [= <- _ _]. apply extends_refl.
+  - destruct (lookup h nid) as [[|ops|]|]; try discriminate.
+    destruct (copy_ops_m h m ops) as [[[h3 m3] r3]|] eqn:E; [|discriminate]. intros [= <- _ _].
+    eapply extends_trans; [eapply copy_ops_m_extends; eauto|apply extends_app].
+Qed.
+Lemma copy_children_extends f : (forall h m c h2 m2 c', f h m c = Some (h2, m2, c') -> extends h h2) ->
+  forall ch h m h2 m2 ch', copy_children f h m ch = Some (h2, m2, ch') -> extends h h2.
+Proof.
+  intros Hf. induction ch as [|[n c] ch IH]; intros h m h2 m2 ch' H; cbn in H.
+  - injection H as <- _ _. apply extends_refl.
+  - destruct (f h m c) as [[[h1 m1] c1]|] eqn:E; [|discriminate].
+    destruct (copy_children f h1 m1 ch) as [[[h3 m3] r3]|] eqn:E2; [|discriminate]. injection H as <- _ _.
+    eapply extends_trans; eauto.
+Qed.
+Lemma copy_circ_extends d : forall h m c h2 m2 c', copy_circ d h m c = Some (h2, m2, c') -> extends h h2.
+Proof.
+  induction d as [|d IH]; intros h m c h2 m2 c' H; cbn in H.
+  - destruct (mget c m); [injection H as <- _ _; apply extends_refl|].
+    destruct (lookup h c) as [[| |ch es]|]; try discriminate.
+    destruct (copy_children copy_node_m h m ch) as [[[h3 m3] r3]|] eqn:E; [|discriminate]. injection H as <- _ _.
+    eapply extends_trans; [eapply copy_children_extends; [|eauto]|apply extends_app].
+    intros. eapply copy_node_m_extends; eauto.
+  - destruct (mget c m); [injection H as <- _ _; apply extends_refl|].
+    destruct (lookup h c) as [[| |ch es]|]; try discriminate.
+    destruct (copy_children (copy_circ d) h m ch) as [[[h3 m3] r3]|] eqn:E; [|discriminate]. injection H as <- _ _.
+    eapply extends_trans; [eapply copy_children_extends; [|eauto]|apply extends_app]. exact IH.
+Qed.
+
+Definition keeps (h h' : heap) (r : id) : Prop := forall i ob, lookup h i = Some ob -> i <> r -> lookup h' i = Some ob.
+Lemma keeps_trans h h1 h2 r : keeps h h1 r -> keeps h1 h2 r -> keeps h h2 r.
+Proof. intros A B i ob Hi Hne. apply B; [apply A|]; assumption. Qed.
+
 (* ------------------------------------------------------------------ update_var for one target *)
 Lemma upd_one_equiv d r h t n op var v : abs d h r = Some t ->
   match upd_one d r h n op var v with
-  | Some h' => exists t', tupd_one t n op var v = Some t' /\ abs d h' r = Some t'
+  | Some h' => exists t', tupd_one t n op var v = Some t' /\ abs d h' r = Some t' /\ keeps h h' r
   | None => tupd_one t n op var v = None
   end.
 Proof.
@@ -630,23 +676,26 @@ Proof.
   { eapply abs_stable; [exact H|]. intros i ob Hi _. rewrite Hoth; [eapply extends_lookup; eauto|]. intros ->. congruence. }
   pose proof (add_node_template_equiv d h2 r t n nid' a' H2 Ha2) as A.
   destruct (add_node_template d h2 r n nid') as [h3|]; [|assumption].
-  destruct A as (t' & Ht' & Habs & _). eauto.
+  destruct A as (t' & Ht' & Habs & Hfr). exists t'. split; [assumption|]. split; [assumption|].
+  intros i ob Hi Hne. apply Hfr; [|assumption]. rewrite Hoth; [eapply extends_lookup; eauto|]. intros ->. congruence.
 Qed.
 Lemma upd_all_equiv d r op var v ntot : forall targets h t i, abs d h r = Some t ->
   match upd_all d r h targets i ntot op var v with
-  | Some h' => exists t', tupd_all t targets i ntot op var v = Some t' /\ abs d h' r = Some t'
+  | Some h' => exists t', tupd_all t targets i ntot op var v = Some t' /\ abs d h' r = Some t' /\ keeps h h' r
   | None => tupd_all t targets i ntot op var v = None
   end.
 Proof.
   induction targets as [|n rest IH]; intros h t i H; cbn.
-  - eauto.
+  - exists t. repeat split; try assumption. intros i0 ob Hi _. assumption.
   - pose proof (upd_one_equiv d r h t n op var (pick v i ntot) H) as U.
     destruct (upd_one d r h n op var (pick v i ntot)) as [h'|]; [|now rewrite U].
-    destruct U as (t' & -> & Habs). exact (IH h' t' (S i) Habs).
+    destruct U as (t' & -> & Habs & K1). specialize (IH h' t' (S i) Habs).
+    destruct (upd_all d r h' rest (S i) ntot op var v); [|assumption].
+    destruct IH as (t'' & ? & ? & K2). exists t''. repeat split; try assumption. eapply keeps_trans; eauto.
 Qed.
 Lemma update_var_equiv d r h t pat op var v : abs d h r = Some t ->
   match update_var d r h pat op var v with
-  | Some h' => exists t', tupdate_var t pat op var v = Some t' /\ abs d h' r = Some t'
+  | Some h' => exists t', tupdate_var t pat op var v = Some t' /\ abs d h' r = Some t' /\ keeps h h' r
   | None => tupdate_var t pat op var v = None
   end.
 Proof.
@@ -839,39 +888,101 @@ Proof.
     + now apply inner_new.
 Qed.
 
-(* ------------------------------------------------------------------ histories *)
-Definition heap_of (st : istate) : heap := fst st.
-Definition root_of (st : istate) : id := snd st.
-
-Lemma step_refines d st t o : abs d (heap_of st) (root_of st) = Some t ->
-  abs d (heap_of (fst (stepI d st o))) (root_of (fst (stepI d st o))) = Some (fst (stepS d t o)) /\
-  snd (stepI d st o) = snd (stepS d t o).
+Lemma update_edge_keeps r h s tg upd h' : update_edge r h s tg upd = Some h' -> keeps h h' r.
 Proof.
-  destruct st as [h r]. unfold heap_of, root_of. cbn [fst snd]. intros H.
-  destruct o as [pat op var v|s tg upd|inpl adds es|nv ev]; cbn [stepI stepS].
-  - pose proof (update_var_equiv d r h t pat op var v H) as U. destruct (update_var d r h pat op var v).
-    + destruct U as (t' & -> & ?). cbn. auto.
-    + rewrite U. cbn. auto.
-  - pose proof (update_edge_equiv d r h t s tg upd H) as U. destruct (update_edge r h s tg upd).
-    + destruct U as (t' & -> & ?). cbn. auto.
-    + rewrite U. cbn. auto.
-  - pose proof (update_template_equiv d r h t inpl adds es H) as U. destruct (update_template d r h inpl adds es) as [[h' r']|].
-    + destruct U as (t' & -> & ?). cbn. auto.
-    + rewrite U. cbn. auto.
-  - cbn. split; [assumption|]. now apply observe_equiv.
+  unfold update_edge. destruct (lookup h r) as [[| |ch es]|]; try discriminate.
+  destruct (edges_update es s tg upd); [|discriminate]. intros [= <-] i ob Hi Hne. rewrite hset_other; [assumption|congruence].
 Qed.
-Theorem history_refines d : forall ops st t, abs d (heap_of st) (root_of st) = Some t ->
-  abs d (heap_of (fst (runI d st ops))) (root_of (fst (runI d st ops))) = Some (fst (runS d t ops)) /\
-  snd (runI d st ops) = snd (runS d t ops).
+Lemma update_template_keeps d r h inpl adds es h' r' : update_template d r h inpl adds es = Some (h', r') ->
+  keeps h h' r /\ (if inpl then r' = r else extends h (firstn r' h') /\ List.length h <= r' /\ forall i ob, lookup h i = Some ob -> lookup h' i = Some ob).
 Proof.
-  induction ops as [|o ops IH]; intros st t H; cbn; [auto|].
-  destruct (step_refines d st t o H) as (Ha & Ho).
-  destruct (stepI d st o) as [s1 out]. destruct (stepS d t o) as [t1 out']. cbn in *. subst out'.
-  destruct (IH s1 t1 Ha) as (Hb & Hc). destruct (runI d s1 ops) as [s2 outs]. destruct (runS d t1 ops) as [t2 outs'].
+  unfold update_template. destruct (lookup h r) as [[| |ch es0]|] eqn:E; try discriminate.
+  destruct (resolve_adds d h r adds) as [news|]; [|discriminate].
+  set (copied := if is_nil adds then Some (h, ch) else _). intros H.
+  assert (Hc : match copied with Some (h1, _) => extends h h1 | None => True end).
+  { subst copied. destruct (is_nil adds); [apply extends_refl|]. destruct d; [|exact I].
+    destruct (copy_children copy_node_m h [] ch) as [[[h1 m1] ch1]|] eqn:C; [|exact I].
+    eapply copy_children_extends; [|exact C]. intros. eapply copy_node_m_extends; eauto. }
+  destruct copied as [[h1 ch']|]; [|discriminate]. destruct inpl; injection H as <- <-.
+  - split; [|reflexivity]. intros i ob Hi Hne. rewrite hset_other by congruence. eapply extends_lookup; eauto.
+  - pose proof (extends_length _ _ Hc) as Hl. split; [|split; [|split; [assumption|]]].
+    + intros i ob Hi _. eapply extends_lookup; [eapply extends_trans; [exact Hc|apply extends_app]|assumption].
+    + rewrite firstn_app, firstn_all, Nat.sub_diag. cbn. rewrite app_nil_r. assumption.
+    + intros i ob Hi. eapply extends_lookup; [eapply extends_trans; [exact Hc|apply extends_app]|assumption].
+Qed.
+
+(* ------------------------------------------------------------------ histories *)
+Definition heap_of (st : istate) : heap := fst (fst st).
+Definition root_of (st : istate) : id := snd (fst st).
+Definition olds_of (st : istate) : list id := snd st.
+
+(* a base template left behind keeps its denotation: it was unfolded in a store hk that lies entirely below the current
+   root object, and only the current root object and fresh objects are ever written *)
+Definition old_ok (d : nat) (h : heap) (r : id) (b : id) (tb : atree) : Prop :=
+  exists hk, abs d hk b = Some tb /\ (forall i ob, lookup hk i = Some ob -> lookup h i = Some ob) /\ List.length hk <= r.
+Definition sim (d : nat) (st : istate) (ss : sstate) : Prop :=
+  abs d (heap_of st) (root_of st) = Some (fst ss) /\ Forall2 (old_ok d (heap_of st) (root_of st)) (olds_of st) (snd ss).
+
+Lemma old_ok_abs d h r b tb : old_ok d h r b tb -> abs d h b = Some tb.
+Proof. intros (hk & Ha & Hl & _). eapply abs_stable; [exact Ha|]. intros i ob Hi _. now apply Hl. Qed.
+Lemma old_ok_step d h r b tb h' r' : old_ok d h r b tb -> keeps h h' r -> r <= r' -> old_ok d h' r' b tb.
+Proof.
+  intros (hk & Ha & Hl & Hlen) K Hr. exists hk. split; [assumption|]. split; [|lia].
+  intros i ob Hi. apply K; [now apply Hl|]. apply lookup_lt in Hi. lia.
+Qed.
+Lemma olds_step d h r h' r' olds tolds : Forall2 (old_ok d h r) olds tolds -> keeps h h' r -> r <= r' ->
+  Forall2 (old_ok d h' r') olds tolds.
+Proof. intros HF K Hr. eapply Forall2_imp; [|exact HF]. intros b tb Hb. eapply old_ok_step; eauto. Qed.
+Lemma olds_nth d h r olds tolds k : Forall2 (old_ok d h r) olds tolds ->
+  match nth_error olds k with
+  | Some b => exists tb, nth_error tolds k = Some tb /\ abs d h b = Some tb
+  | None => nth_error tolds k = None
+  end.
+Proof.
+  intros HF. revert k. induction HF as [|b tb olds tolds Hb HF IH]; intros [|k]; cbn; try reflexivity.
+  - exists tb. split; [reflexivity|]. eapply old_ok_abs; eauto.
+  - apply IH.
+Qed.
+
+Lemma step_refines d st ss o : sim d st ss ->
+  sim d (fst (stepI d st o)) (fst (stepS d ss o)) /\ snd (stepI d st o) = snd (stepS d ss o).
+Proof.
+  destruct st as [[h r] olds]. destruct ss as [t tolds]. unfold sim, heap_of, root_of, olds_of. cbn [fst snd]. intros (H & HO).
+  destruct o as [pat op var v|s tg upd|inpl adds es|nv ev|k]; cbn [stepI stepS].
+  - pose proof (update_var_equiv d r h t pat op var v H) as U. destruct (update_var d r h pat op var v).
+    + destruct U as (t' & -> & ? & K). cbn. repeat split; try assumption. eapply olds_step; eauto.
+    + rewrite U. cbn. auto.
+  - pose proof (update_edge_equiv d r h t s tg upd H) as U. destruct (update_edge r h s tg upd) eqn:UE.
+    + destruct U as (t' & -> & ?). cbn. repeat split; try assumption. eapply olds_step; eauto. eapply update_edge_keeps; eauto.
+    + rewrite U. cbn. auto.
+  - pose proof (update_template_equiv d r h t inpl adds es H) as U. destruct (update_template d r h inpl adds es) as [[h' r']|] eqn:UT.
+    + destruct U as (t' & -> & Ha). destruct (update_template_keeps _ _ _ _ _ _ _ _ UT) as (K & Hi). cbn.
+      destruct inpl.
+      * subst r'. repeat split; try assumption. eapply olds_step; eauto.
+      * destruct Hi as (_ & Hlen & Hall). destruct (abs_root _ _ _ _ H) as (? & ? & E). pose proof (lookup_lt _ _ _ E).
+        repeat split; try assumption. constructor.
+        -- exists h. repeat split; assumption.
+        -- eapply olds_step; eauto. lia.
+    + rewrite U. cbn. auto.
+  - cbn. repeat split; try assumption. now apply observe_equiv.
+  - cbn. repeat split; try assumption. pose proof (olds_nth d h r olds tolds k HO) as N. destruct (nth_error olds k) as [b|].
+    + destruct N as (tb & -> & Hb). now apply observe_equiv.
+    + now rewrite N.
+Qed.
+Theorem history_refines d : forall ops st ss, sim d st ss ->
+  sim d (fst (runI d st ops)) (fst (runS' d ss ops)) /\ snd (runI d st ops) = snd (runS' d ss ops).
+Proof.
+  induction ops as [|o ops IH]; intros st ss H; cbn; [auto|].
+  destruct (step_refines d st ss o H) as (Ha & Ho).
+  destruct (stepI d st o) as [s1 out]. destruct (stepS d ss o) as [t1 out']. cbn in *. subst out'.
+  destruct (IH s1 t1 Ha) as (Hb & Hc). destruct (runI d s1 ops) as [s2 outs]. destruct (runS' d t1 ops) as [t2 outs'].
   cbn in *. subst. auto.
 Qed.
 Corollary history_outputs d r ops h t : abs d h r = Some t -> snd (runI d (init_state h r) ops) = snd (runS d t ops).
-Proof. intros H. apply (history_refines d ops (init_state h r) t H). Qed.
+Proof. intros H. apply (history_refines d ops (init_state h r) (t, [])). split; [exact H|constructor]. Qed.
+Corollary history_final d r ops h t : abs d h r = Some t ->
+  abs d (heap_of (fst (runI d (init_state h r) ops))) (root_of (fst (runI d (init_state h r) ops))) = Some (fst (fst (runS d t ops))).
+Proof. intros H. apply (history_refines d ops (init_state h r) (t, [])). split; [exact H|constructor]. Qed.
 
 (* ------------------------------------------------------------------ the frame property of the specification:
    a functional update at path n changes the node at n and no other (first-match dictionaries).
